@@ -393,4 +393,7 @@ def run(P, R, tier):
     c15.notification(P, Remap(R, {'C15.GRD.1': 'C18.GRD.3', 'C15.MPT.1': 'C18.GRD.3'}))
     # dropping the whole logs section must revert its entries (the old present bit decides)
     c15.removal_guard(P, Remap(R, {'C15.GRD.2': 'C18.GRD.4', 'C15.GRD.3': 'C18.GRD.4'}))
+    # destination reference counts do not wrap
+    rules.narrowing_fields(P, R, 'C18.WID.1', ('src/log.c',))
+    rules.counter_widths(P, R, 'C18.WID.2', recs=('log_destination', 'log_destination_vector', 'log_type'))
     return EXPLANATION, ASSUMPTIONS
